@@ -34,7 +34,12 @@ CLAIM = dict(
          "the canonical base representation scaled by a non-zero constant, so the base vectors of a group are "
          "proportional in the ratio of their first exponents, the target `rep^e` has the dimension vector of the "
          "group, and same-dimension conversions succeed by convComplete; Lemmas/QtySimplify.lean, about 450 lines); "
-         "instantiated at the regenerated prelude table (prelude_simplify_total). The same "
+         "instantiated at the regenerated prelude table (prelude_simplify_total). Under the same hypotheses both "
+         "simplifications preserve the physical dimension — the simplified unit has the dimension vector of the "
+         "original unit, except that a zero is displayed as the bare, dimension-polymorphic `0` (simplify_dim, "
+         "simplifyReg_dim, simplify_zero; loop invariant h3_fold_vec) — and converting the simplified result back to "
+         "the unit of the unsimplified computation always succeeds and gives exactly the unsimplified magnitude "
+         "(simplify_convert_back, simplifyReg_convert_back; instantiated at the prelude table). The same "
          "definitions at Float agree bit-for-bit with Quantity::full_simplify, with the VM's simplify_quantity, and "
          "with the value the real interpreter displays for generated expressions (raw global vs displayed result).",
     design_ref="DESIGN.md section 5 C05",
